@@ -226,7 +226,9 @@ func (g *Gen) call(st *State, site ssa.Instruction, c *ssa.CallCommon, rt types.
 	// a closure held in a local variable: the FuncV carries the function and its bindings
 	if static == nil && !c.IsInvoke() {
 		if fv, ok := g.value(st, c.Value).(FuncV); ok && fv.Fn != nil && len(fv.Fn.Blocks) > 0 && fv.Fn.Parent() != nil {
-			if fs := g.W.specFor(fv.Fn); fs == nil {
+			// a closure with its own contract is still executed in place when the enclosing function asks for it
+			// (`option inline-closures yes`): its contract is proved separately, inlining here is merely more precise
+			if fs := g.W.specFor(fv.Fn); fs == nil || (g.rootSpec() != nil && g.rootSpec().Options["inline-closures"] != "") {
 				return g.inlineCall(st, fv.Fn, args, fv.Binds, rt)
 			}
 		}
